@@ -149,8 +149,14 @@ DoBusReset == /\ cur.ph = "idle" /\ pk = <<>>
 Next == \/ DoBusReset \/ DoTx \/ DoRx \/ HostTokenOut \/ HostData \/ HostTokenIn \/ HostSof
         \/ DevAnswersOut \/ DevSilentOut \/ CommitOut
         \/ DevAnswersIn \/ DevSilentIn \/ HostAckIn \/ CommitInNoAck \/ DoSetAddr
+\* behaviour generator for spec -> code replay (tlc -simulate): everything but bus resets (after a reset the data path
+\* is outside the trace specification's Env)
+NextSim == \/ DoTx \/ DoRx \/ HostTokenOut \/ HostData \/ HostTokenIn \/ HostSof
+           \/ DevAnswersOut \/ DevSilentOut \/ CommitOut
+           \/ DevAnswersIn \/ DevSilentIn \/ HostAckIn \/ CommitInNoAck \/ DoSetAddr
 InitMC == SInit /\ cur = Idle /\ act = [e |-> "init"] /\ nSol = 0 /\ nDev = 0 /\ wireIn = <<>>
 Spec == InitMC /\ [][Next]_mcvars
+SpecSim == InitMC /\ [][NextSim]_mcvars
 
 \* `bus` (negotiated speed, fresh-after-reset flag) influences no action of this model: hidden from the state identity
 View == <<vars, sol, tok, pk, cur, nSol - nDev, wireIn>>
